@@ -512,6 +512,12 @@ def check_failure(col: Collector, repo: Repo, ex, run_dir_var):
 
 def check_cross(col: Collector, repo: Repo, ex):
     col.floor("C17.R6", 8)
+    from sa.props._tr import check_cfg_filelist, check_copy_template, import_obligations
+    check_cfg_filelist(col, "C17.R6")
+    # the package mounted at /scripts is this backend's own rendering, and a job that fails makes the container fail
+    check_copy_template(col, "C17.R6", repo, details=("package-files-rendered-from-this-backend's-templates", "package-files-replaced-not-overlaid"))
+    import_obligations(col, "C17.R6", "c16", lambda o: o.rule == "C16.R2" and o.detail.startswith("step-context:") and ("cmsRun" in o.detail or "ATestRun_eljob" in o.detail),
+                       "a masked job failure makes the container exit 0: no DockerException, and a truncated or stale result is returned")
     # per-backend dataset classes
     ld = repo.find_class("LocalDataset")
     subs = repo.subclasses(ld)
